@@ -5,27 +5,23 @@
    (Go map iteration order, heap / prque ties, unstable sort) of every step.
 
    Full-strength property (DESIGN.md C15):  after every history `run p0 h = Ok p`
-     1. pending_executable p      — REFUTED for the code as it is (C15_pending_executable_refuted):
-                                     reset promotes reinjected transactions into the not-yet-demoted
-                                     pending list and demoteUnexecutables only detects a gap in front
-                                     (oracle signature reset-reinject-leaves-gap-in-pending; reachable on a
-                                     self-consistent chain, directed history in the harness);
-                                     the affordability half IS proved (C15_pending_affordable, with the
-                                     soundness of the cached ceilings C15_caps_sound); of the ordering half
-                                     only C15_pending_limit_keeps_run_partial is proved (the pending-limit loops of
-                                     promoteExecutables keep every pending run gap-free and State().GetNonce in step);
-                                     the full pending_executable_partial (pendingNonce = cur + len after every
-                                     operation without nonce-lowering reinjection) is NOT proved: it additionally
-                                     needs nonce bounds (uint64 wrap of nonce+1), strictness of pending lists and a
-                                     pass over removeTx / promoteTx / add;
+     1. pending_executable p      — ordering half REFUTED for the code as it is (C15_pending_executable_refuted):
+                                     reset promotes reinjected transactions into the not-yet-demoted pending list and
+                                     demoteUnexecutables only detects a gap in front (signature
+                                     reset-reinject-leaves-gap-in-pending, directed history on a self-consistent chain).
+                                     Proved: the affordability half over every history (C15_pending_affordable,
+                                     C15_caps_sound); the ordering half together with the virtual nonce over every
+                                     HEAD-FREE history (C15_pending_run_head_free_partial: pn_ok after any interleaving
+                                     of local/remote submissions and SetGasPrice, any oracle), with its building blocks
+                                     C15_pending_limit_keeps_run_partial and C15_promote_next_keeps_run_partial.
+                                     NOT proved: pn_ok across reset with an empty reinjection list (missing: the lemma
+                                     that demoteUnexecutables turns a run from the old chain nonce into a run from the
+                                     new one or empties the list; the rest of reset is covered by the lemmas here);
      2. unique_nonce p            — proved (C15_unique_nonce);
-        all_is_union p            — proved (C15_all_is_union) since the /repo fix "removeTx re-queues
-                                     invalidated successors also when the pending list becomes empty";
+        all_is_union p            — proved (C15_all_is_union) since the /repo fix of removeTx;
      3. replacement_needs_bump    — proved (C15_replacement_needs_bump, C15_list_replacement_needs_bump);
      4. limits_hold p             — not proved; FALSE at all times for the queue limits of the code as it is
-                                     (removeTx re-queues without a cap and a replacing add / SetGasPrice is not
-                                     followed by promoteExecutables: oracle signature
-                                     removetx-requeue-exceeds-queue-limits); checked by the direct oracle;
+                                     (signature removetx-requeue-exceeds-queue-limits); checked by the direct oracle;
      5. reorg_reinjects           — not proved here (checked on the implementation by the direct oracle). *)
 From Coq Require Import List ZArith.
 From AQ Require Import Pool.PoolModel Pool.PoolSpec Pool.PoolProofs.
@@ -91,6 +87,21 @@ Theorem C15_caps_sound : forall (h : list (oracle * op)) (c : cfg) (gp : Z) (cur
   (forall a l, assoc a (queue p') = Some l -> Forall (fun t => tcost t <= costcap l /\ tgas t <= gascap l) (items l)).
 Proof. intros h c gp cur0 gas0 p' H. exact (proj1 (affordable_invariant h c gp cur0 gas0 p' H)). Qed.
 Print Assumptions C15_caps_sound.
+
+(* 1, ordering half + virtual nonce, PARTIAL (head-free histories).  Full statement wanted: the same for histories
+      whose resets do not reinject at a lowered nonce.  Proved: from the empty pool, after every history made of
+      AddLocal / AddRemote / SetGasPrice in any order (no head event), under every oracle, with nonces in the uint64
+      range where nonce+1 does not wrap: per sender the pending nonces are exactly the run starting at the chain nonce
+      and State().GetNonce(sender) = chain nonce + length of that run. *)
+Theorem C15_pending_run_head_free_partial : forall (h : list (oracle * op)) (c : cfg) (gp : Z) (cur0 : list (Z * (Z * Z))) (gas0 : Z) (p' : pool),
+  Forall (fun ox => head_free (snd ox) /\ Forall nonce_ok (op_txs (snd ox))) h ->
+  run (new_pool c gp cur0 gas0) h = Ok p' ->
+  forall a, match assoc a (pending p') with
+            | Some l => run_from (cur_nonce p' a) (items l) /\ pn_get p' a = cur_nonce p' a + tl_len l
+            | None => pn_get p' a = cur_nonce p' a
+            end.
+Proof. exact pn_ok_head_free. Qed.
+Print Assumptions C15_pending_run_head_free_partial.
 
 (* 1, ordering half, PARTIAL.  Full statement wanted: for every history without nonce-lowering reinjection,
       pn_ok holds after every operation (pending nonces = the run from the chain nonce, State().GetNonce = chain
